@@ -43,6 +43,17 @@ class Node(Command):
         return [self.result_name, children]
 
 
+class Mute(Node):
+    """A side-effect-only step: references like Node, logs its execution, returns None."""
+
+    inputs = dict(Node.inputs)
+    output = params.Parameter()
+
+    def execute(self, **kwargs):
+        super(Mute, self).execute(**kwargs)
+        return None
+
+
 class Kinds(Command):
     """One parameter of every parameter class; returns the cleaned keyword arguments (references by name)."""
 
